@@ -219,8 +219,12 @@ func check(prop, tier, only, repoDir, verifDir string, workers, par, seed int, d
 				nOb++
 			}
 			if ob.Solver != "trivial" {
-				h := sha1.Sum([]byte(ob.Script))
-				distinct[fmt.Sprintf("%x", h[:8])] = true
+				if ob.ScriptHash != "" {
+					distinct[ob.ScriptHash] = true
+				} else {
+					h := sha1.Sum([]byte(ob.Script))
+					distinct[fmt.Sprintf("%x", h[:8])] = true
+				}
 			}
 			switch ob.Result {
 			case "unsat":
